@@ -70,7 +70,27 @@ fn restart_strat(max_ops: usize) -> impl Strategy<Value = Case> {
 /// the revocation oracle is a function of the signer / wire / broadcast history only and carries over.
 fn run_restart(c: &Case, ctx: &mut Ctx) -> CaseResult {
 	let mut sim = c.spec.build(false);
-	let r = run_restart_inner(c, ctx, &mut sim);
+	let r = match std::panic::catch_unwind(std::panic::AssertUnwindSafe(|| run_restart_inner(c, ctx, &mut sim))) {
+		Ok(r) => r,
+		Err(payload) => {
+			if ctx.replay {
+				println!("==== history (panicked) ====\n{}", dump_history(&sim));
+			}
+			// listed finding (see C10): a monitor update that was blocked inside the Channel when the manager was
+			// written shares its update id with a later unblocked update; after a reload from that manager the ids
+			// collide. Matched on the panic message plus the history condition.
+			let (msg, loc) = vcore::take_last_panic().unwrap_or_default();
+			let lost = netsim::ext_c10::blocked_raa_update_lost_on_reload(&sim);
+			if lost && msg.contains("Attempted to apply post-force-close ChannelMonitorUpdate") {
+				Err(Failure::new("panic", format!("panic at {}: {}", loc, msg)).with_key("panic/post-force-close-update/blocked-update-id-reused-after-stale-reload"))
+			} else if lost && msg.contains("Latest counterparty commitment secret was invalid") {
+				Err(Failure::new("panic", format!("panic at {}: {}", loc, msg)).with_key("panic/commitment-secret-rejected/blocked-raa-update-dropped-on-stale-reload"))
+			} else {
+				vcore::set_last_panic(Some((msg, loc)));
+				std::panic::resume_unwind(payload)
+			}
+		},
+	};
 	if ctx.replay && r.is_err() {
 		println!("==== history ====\n{}", dump_history(&sim));
 	}
